@@ -32,6 +32,7 @@
 (*   paths  instance |-> sequence of node paths in registration order         *)
 (*          (running, endpoints..., identity)                                 *)
 (*   cpaths container |-> its own such sequence, where it differs (else empty) *)
+(*   retries  _EPHEMERAL_RETRY_COUNT of presence.py (register_* section)        *)
 (*   data   host |-> container |-> sequence of node data (same indexing)      *)
 (*   kidx   indexes of the paths presence.kill_node removes (running and      *)
 (*          endpoints, not the identity)                                      *)
@@ -56,6 +57,8 @@ CONSTANTS Hosts,       \* sequence of hosts
           HelpKinds,   \* extension: which helpers run, subset of {"kill", "unreg"}
           MaxPub,      \* _unschedule: bound on trace events published (trace/app/zk.py)
           MaxSched,    \* _unschedule: bound on the scheduler's placement changes
+          MaxReg,      \* EndpointPresence.register_*: bound on registration runs
+          Retries,     \* ... and its _EPHEMERAL_RETRY_COUNT
           Ext,         \* extension: the scenario's `ext` record
           MaxPad,      \* generator only: padding steps after quiescence
           SymFirst,    \* TRUE: the first container starts on the first host (the hosts
@@ -96,6 +99,11 @@ AdmSess == 900
 (* publication of a trace event by a host (trace/app/zk.py publish): host, instance, *)
 (* event type, calls still to make, what its exists() of the placement showed        *)
 NoPub == [ph |-> "idle", h |-> "", a |-> "", ty |-> "", todo |-> <<>>, saw |-> FALSE]
+(* registration through EndpointPresence (register_* section): session, host,   *)
+(* container, which function, paths still to register, step of the retry loop,  *)
+(* failed attempts on the current path, result                                  *)
+NoReg == [ph |-> "idle", s |-> 0, h |-> "", c |-> "", kind |-> "", todo |-> <<>>, step |-> "",
+          tries |-> 0, res |-> ""]
 (* the extension's set-up (server presence nodes, /scheduled, /placement) is there *)
 ExtOn(S) == DOMAIN S.ext.sp # {}
 NoAdm == [ph |-> "idle", kind |-> "", h |-> "", a |-> "", todo |-> <<>>, clean |-> TRUE,
@@ -129,6 +137,9 @@ InitSt(S) ==
    fin     |-> [a \in DOMAIN S.paths |-> FALSE],  \* /finished/<app> exists
    pub     |-> NoPub,                             \* trace event being published
    npub    |-> 0,
+   rrun    |-> NoReg,                             \* EndpointPresence.register_* run in flight
+   regd    |-> {},                                \* [s, h, c]: runs that reported success, session alive
+   nreg    |-> 0,
    nsch    |-> 0,
    pad     |-> 0,
    last    |-> NoLast]                            \* what the last step did (step invariants)
@@ -143,6 +154,7 @@ Quiescent(S, st_) ==
   /\ st_.linger = {}
   /\ st_.adm.ph = "idle"
   /\ st_.pub.ph = "idle"
+  /\ st_.rrun.ph = "idle"
   /\ \A h \in HostSet(S) : st_.active[h] = {} /\ st_.queue[h] = <<>> /\ st_.pc[h].ph = "idle"
 
 -----------------------------------------------------------------------------
@@ -412,7 +424,8 @@ Vanish(S, st_, ps, word) ==
        word)
 
 ReapDo(S, st_, s, word) ==
-  [Vanish(S, st_, SessNodes(st_, s), word) EXCEPT !.linger = @ \ {s}]
+  [Vanish(S, st_, SessNodes(st_, s), word) EXCEPT !.linger = @ \ {s},
+                                                  !.regd = {r \in @ : r.s # s}]
 
 (* Helpers of treadmill/presence.py (extension).                              *)
 (*                                                                            *)
@@ -609,16 +622,92 @@ PCallDo(S, st_) ==
 CanPEnd(st_) == st_.pub.ph = "run" /\ st_.pub.todo = <<>>
 PEndDo(st_) == [st_ EXCEPT !.pub = NoPub, !.last = NoLast]
 
+-----------------------------------------------------------------------------
+(* presence.py: EndpointPresence.register() / register_identity / _running /  *)
+(* _endpoints -- the registration path that does not go through the presence  *)
+(* service (docker runtime).  Each node through _create_ephemeral_with_retry:  *)
+(* up to `retries` times: create(ephemeral); NodeExists => get, sleep; then     *)
+(* ContainerSetupError.  It WAITS until it can own the node: an existing node   *)
+(* -- even one with identical data, left by a previous, still alive session of  *)
+(* the same host -- is never taken for registered.  A run has a session of its  *)
+(* own (RegSess); when it has ended the session lives on (linger) until Reap.   *)
+RegSess(n) == 800 + n
+RegKinds == {"all", "identity", "running", "endpoints"}
+RegPaths(S, c, kind) ==
+  LET ps == CPaths(S, c)
+      ks == [k \in 1..Len(ps) |-> k]
+      ids == SelectSeq(ks, LAMBDA k : k \notin S.kidx)
+      run == SelectSeq(ks, LAMBDA k : k = 1)
+      eps == SelectSeq(ks, LAMBDA k : k \in S.kidx /\ k # 1)
+      sel == CASE kind = "all" -> ids \o run \o eps
+               [] kind = "identity" -> ids
+               [] kind = "running" -> run
+               [] kind = "endpoints" -> eps IN
+  [i \in 1..Len(sel) |-> sel[i]]            \* indexes into CPaths(S, c), in registration order
+
+CanReg(S, st_) == st_.rrun.ph = "idle" /\ st_.nreg < MaxReg
+RegStart(S, st_, c, todo) ==
+  IF todo = <<>> THEN [ph |-> "end", res |-> "ok"] ELSE [ph |-> "run", res |-> ""]
+RegBeginDo(S, st_, h, c, kind) ==
+  LET todo == RegPaths(S, c, kind) IN
+  [st_ EXCEPT !.rrun = [NoReg EXCEPT !.ph = RegStart(S, st_, c, todo).ph, !.res = RegStart(S, st_, c, todo).res,
+                                     !.s = RegSess(st_.nreg + 1), !.h = h, !.c = c, !.kind = kind,
+                                     !.todo = todo, !.step = "create"],
+              !.nreg = @ + 1, !.last = NoLast]
+
+InRCall(st_) == st_.rrun.ph = "run"
+RegPath(S, st_) == CPaths(S, st_.rrun.c)[Head(st_.rrun.todo)]
+RegData(S, st_) == S.data[st_.rrun.h][st_.rrun.c][Head(st_.rrun.todo)]
+
+RCallDesc(S, st_) ==
+  LET r == st_.rrun
+      p == RegPath(S, st_)
+      ex == p \in DOMAIN st_.nodes IN
+  CASE r.step = "create" -> [op |-> "create", path |-> p, res |-> IF ex THEN "NodeExists" ELSE "ok"]
+    [] r.step = "get"    -> [op |-> "get", path |-> p, res |-> IF ex THEN "ok" ELSE "NoNode"]
+    [] r.step = "sleep"  -> [op |-> "sleep", path |-> "", res |-> "ok"]
+
+RCallDo(S, st_) ==
+  LET r == st_.rrun
+      p == RegPath(S, st_)
+      ex == p \in DOMAIN st_.nodes
+      s0 == [st_ EXCEPT !.last = [NoLast EXCEPT !.s = r.s, !.rk = "register", !.rc = r.c]]
+      nextpath(s1) == IF Tail(r.todo) = <<>>
+                      THEN [s1 EXCEPT !.rrun = [@ EXCEPT !.ph = "end", !.res = "ok", !.todo = <<>>]]
+                      ELSE [s1 EXCEPT !.rrun = [@ EXCEPT !.todo = Tail(r.todo), !.step = "create", !.tries = 0]] IN
+  CASE r.step = "create" ->
+         IF ex THEN [s0 EXCEPT !.rrun.step = "get"]
+         ELSE nextpath([s0 EXCEPT !.nodes = Put(@, p, [d |-> RegData(S, st_), o |-> r.s]),
+                                  !.last.w = [op |-> "create", path |-> p, o |-> 0]])
+    [] r.step = "get" ->
+         IF "sameDataOk" \in S.defects /\ ex /\ st_.nodes[p].d = RegData(S, st_)
+         THEN nextpath(s0)
+         ELSE [s0 EXCEPT !.rrun.step = "sleep"]
+    [] r.step = "sleep" ->
+         IF r.tries + 1 >= S.retries
+         THEN [s0 EXCEPT !.rrun = [@ EXCEPT !.ph = "end", !.res = "abort"]]
+         ELSE [s0 EXCEPT !.rrun = [@ EXCEPT !.step = "create", !.tries = @ + 1]]
+
+CanREnd(st_) == st_.rrun.ph = "end"
+REndDo(st_) ==
+  [st_ EXCEPT !.rrun = NoReg, !.linger = @ \cup {st_.rrun.s},
+              !.regd = IF st_.rrun.res = "ok"
+                       THEN @ \cup {[s |-> st_.rrun.s, h |-> st_.rrun.h, c |-> st_.rrun.c, kind |-> st_.rrun.kind]}
+                       ELSE @,
+              !.last = NoLast]
+
 -----
 Scn == [hosts |-> Hosts, conts |-> Conts, inst |-> InstOf, paths |-> PathsOf,
         defects |-> Defects, kidx |-> {1} \cup PerCont, ext |-> Ext, cpaths |-> <<>>,
+        retries |-> Retries,
         data |-> [h \in Range(Hosts) |-> [c \in Range(Conts) |->
                     [k \in 1..Len(PathsOf[InstOf[c]]) |->
                         IF k \in PerCont THEN <<h, c>> ELSE <<h>>]]]]
 
 Init == st = InitSt(Scn)
 
-Submit(h, c) == /\ CanSubmit(Scn, st, h, c)
+Submit(h, c) == /\ MaxReg = 0       \* (register_* configuration: no presence service requests)
+                /\ CanSubmit(Scn, st, h, c)
                 /\ (SymFirst /\ st.order = <<>> => h = Hosts[1])
                 /\ st' = Dirty(SubmitDo(Scn, st, h, c))
 Finish(h, c) == CanFinish(Scn, st, h, c) /\ st' = Dirty(FinishDo(Scn, st, h, c))
@@ -640,6 +729,9 @@ RmRoot(x) == x = 1 /\ CanRmRoot(Scn, st) /\ st' = Dirty(RmRootDo(Scn, st))
 PubBegin(h, a, ty) == CanPub(Scn, st) /\ st' = Dirty(PubBeginDo(Scn, st, h, a, ty))
 PCall(x) == x = 1 /\ InPCall(st) /\ st' = Dirty(PCallDo(Scn, st))
 PEnd(x) == x = 1 /\ CanPEnd(st) /\ st' = Dirty(PEndDo(st))
+RegBegin(h, c, kind) == CanReg(Scn, st) /\ st' = Dirty(RegBeginDo(Scn, st, h, c, kind))
+RCall(x) == x = 1 /\ InRCall(st) /\ st' = Dirty(RCallDo(Scn, st))
+REnd(x) == x = 1 /\ CanREnd(st) /\ st' = Dirty(REndDo(st))
 Pad(n) == Quiescent(Scn, st) /\ st.pad < MaxPad /\ n = st.pad + 1
           /\ st' = [st EXCEPT !.pad = n, !.last = NoLast]
 
@@ -657,7 +749,8 @@ Next ==
   \/ \E h \in Range(Hosts), word \in FireSeqs : Expire(h, word)
   \/ \E h \in Range(Hosts), rord \in ContSeqs : Restart(h, rord)
   \/ \E h \in Range(Hosts) : Crash(h)
-  \/ \E s \in 1..(Len(Hosts) + MaxExpire), word \in FireSeqs : Reap(s, word)
+  \/ \E s \in 1..(Len(Hosts) + MaxExpire) \cup {RegSess(n) : n \in 1..MaxReg}, word \in FireSeqs :
+        Reap(s, word)
   \/ \E h \in Range(Hosts) : KillBegin(h)
   \/ \E h \in Range(Hosts), a \in DOMAIN PathsOf : UnregBegin(h, a)
   \/ \E ord \in FireSeqs : ACall(ord)
@@ -668,6 +761,9 @@ Next ==
   \/ \E h \in Range(Hosts), a \in DOMAIN PathsOf, ty \in EventTypes : PubBegin(h, a, ty)
   \/ \E x \in {1} : PCall(x)
   \/ \E x \in {1} : PEnd(x)
+  \/ \E h \in Range(Hosts), c \in Range(Conts), kind \in RegKinds : RegBegin(h, c, kind)
+  \/ \E x \in {1} : RCall(x)
+  \/ \E x \in {1} : REnd(x)
   \/ \E n \in 1..MaxPad : Pad(n)
 
 Spec == Init /\ [][Next]_st
@@ -774,6 +870,18 @@ UnscheduleOwner ==
 (* withdraws it between the publisher's exists and its delete.                 *)
 UnscheduleOwnerNow ==
   st.last.rk = "publish" /\ st.last.w.op = "delete" => st.last.named
+
+(* C17.ownsAfterRegister (MaxReg > 0): when register_* has returned, every     *)
+(* node it was to register exists and is an ephemeral node of the CALLER's     *)
+(* session -- and stays so while that session lives, whatever other session    *)
+(* expires (C17.keptAfterExpire).  Violated by the defect "sameDataOk" (an      *)
+(* existing node with identical data is taken for registered).                  *)
+RegOwned(r) ==
+  \A k \in Range(RegPaths(Scn, r.c, r.kind)) :
+     LET p == CPaths(Scn, r.c)[k] IN p \in DOMAIN st.nodes /\ st.nodes[p].o = r.s
+OwnsAfterRegister ==
+  st.rrun.ph = "end" /\ st.rrun.res = "ok" => RegOwned(st.rrun)
+KeptAfterExpire == \A r \in st.regd : RegOwned(r)
 
 (* a publication writes its event, /finished/<app> and nothing else but that  *)
 (* delete                                                                     *)
